@@ -8,14 +8,22 @@ Open Scope N_scope.
    snapshots (whatever their persist outcome), reaps, restarts and rejected loads change nothing. *)
 Definition cells_eq (a b : cells) : Prop := forall k, get a k = get b k.
 
-Definition spec_step (d : cells) (o : op) : cells :=
+Definition spec_step (d : cells) (o : op) (res : N) : cells :=
   match o with
   | OWrite ks v => apply_frames d (map (fun k => (k, v)) ks)
-  | OLoad c | OBoot c => cells_of_vec c
-  | OInstall c segs => apply_segs (cells_of_vec c) (map (fun '(ks, v) => map (fun k => (k, v)) ks) segs)
+  | OLoad c => cells_of_vec c
+  | OBoot c => if res =? 0 then cells_of_vec c else d       (* a boot / install that is refused changes nothing *)
+  | OInstall c segs =>
+      if res =? 0 then apply_segs (cells_of_vec c) (map (fun '(ks, v) => map (fun k => (k, v)) ks) segs) else d
   | _ => d
   end.
-Definition spec_state (ops : list op) : cells := fold_left spec_step ops [].
+
+(* the history is run on the model and on the specification side by side; the specification only takes the
+   result code of each operation from the model (the driver compares those codes with the real ones) *)
+Definition both_step (x : st * cells) (o : op) : st * cells :=
+  let '(s, d) := x in let '(s', res) := step s o in (s', spec_step d o res).
+Definition both (ops : list op) : st * cells := fold_left both_step ops (init, []).
+Definition spec_state (ops : list op) : cells := snd (both ops).
 
 (* the two halves of the chain invariant *)
 Definition chain_ok (s : st) : Prop :=
@@ -67,19 +75,39 @@ Qed.
 Lemma replay_snoc l e d : replay (l ++ [e]) d = replay_entry (replay l d) e.
 Proof. unfold replay. rewrite fold_left_app. reflexivity. Qed.
 
-Lemma spec_step_congr o a b : cells_eq a b -> cells_eq (spec_step a o) (spec_step b o).
-Proof. destruct o; cbn [spec_step]; intros H; auto using apply_frames_congr, cells_eq_refl. Qed.
+Lemma spec_step_congr o res a b : cells_eq a b -> cells_eq (spec_step a o res) (spec_step b o res).
+Proof. destruct o; cbn [spec_step]; intros H; try destruct (res =? 0); auto using apply_frames_congr, cells_eq_refl. Qed.
 
 (* ---- the inductive invariant ---- *)
+(* what is known about a snapshot in flight: replaying the log after its index over its content gives the live
+   database; a full one that saw no swap still is the database file and the mtime guard is quiet *)
+Definition pend_ok (s : st) (r : cells) : Prop :=
+  match pending s with
+  | None => True
+  | Some (PendFull i img sw) =>
+      (N.to_nat i <= length (log s))%nat
+      /\ cells_eq (replay (skipn (N.to_nat i) (log s)) img) (live s)
+      /\ staging s = []
+      /\ (sw = false -> cells_eq img (dbf s) /\ mnewer s = false)
+  | Some (PendInc i sw) =>
+      (N.to_nat i <= length (log s))%nat
+      /\ cells_eq (replay (skipn (N.to_nat i) (log s)) (apply_segs r (staging s))) (live s)
+      /\ snaps s <> []
+  end.
+
 Definition Inv (s : st) : Prop :=
   exists r, restored s = Some r
     /\ (full_due s = false -> cells_eq (apply_segs r (staging s)) (dbf s))
     /\ cells_eq (replay (suffix s) r) (live s)
-    /\ (N.to_nat (newest_idx s) <= length (log s))%nat.
+    /\ (N.to_nat (newest_idx s) <= length (log s))%nat
+    /\ (mnewer s = true -> full_needed s = true)
+    /\ pend_ok s r.
 
-Ltac st := cbn [snap_idx dbf wal staging snaps full_needed log set_dbf set_staging set_snaps set_full add_log apply_phys fst snd].
+Ltac st := cbn [snap_idx dbf wal staging snaps full_needed log mnewer pending set_dbf set_staging set_snaps set_full add_log set_mnewer set_pending apply_phys fst snd].
 Ltac split4 := split; [|split; [|split]].
 Ltac split5 := split; [|split; [|split; [|split]]].
+Ltac split6 := split; [|split; [|split; [|split; [|split]]]].
+Ltac split7 := split; [|split; [|split; [|split; [|split; [|split]]]]].
 
 Lemma skipn_len {A} (l : list A) : skipn (length l) l = [].
 Proof. apply skipn_all. Qed.
@@ -92,27 +120,18 @@ Qed.
 Lemma applied_nat s : N.to_nat (applied s) = length (log s).
 Proof. unfold applied. apply Nnat.Nat2N.id. Qed.
 
-(* a snapshot that has just become the newest, with the database file as its content *)
-Lemma inv_new_full s d ws l :
-  Inv {| dbf := apply_segs d ws; wal := []; staging := []; snaps := SFull (N.of_nat (length l)) d ws :: snaps s; full_needed := false; log := l |}.
+(* a snapshot that has just become the newest, with the database file as its content, nothing in flight *)
+Lemma inv_new_full s d ws l fn :
+  Inv {| dbf := apply_segs d ws; wal := []; staging := []; snaps := SFull (N.of_nat (length l)) d ws :: snaps s;
+         full_needed := fn; log := l; mnewer := false; pending := None |}.
 Proof.
-  exists (apply_segs d ws). split4.
+  exists (apply_segs d ws). split6.
   - reflexivity.
   - intros _. apply cells_eq_refl.
   - unfold suffix, newest_idx; cbn. rewrite Nnat.Nat2N.id, skipn_len. cbn. apply cells_eq_refl.
   - unfold newest_idx; cbn. rewrite Nnat.Nat2N.id. lia.
-Qed.
-
-Lemma snap_full_ok s :
-  full_due s = true ->
-  let s' := fst (snapshot_step true s POk) in
-  Inv s' /\ live s' = live s.
-Proof.
-  intros Hd. unfold snapshot_step. rewrite Hd. cbn [fst].
-  split.
-  - unfold set_full, set_snaps, set_staging, set_dbf, applied; cbn.
-    exact (inv_new_full s _ [] _).
-  - reflexivity.
+  - cbn. discriminate.
+  - exact I.
 Qed.
 
 Lemma restored_nonempty s : snaps s <> [] -> forall r, restored s = Some r ->
@@ -123,11 +142,14 @@ Proof.
   exists db, ws. split; [reflexivity|]. congruence.
 Qed.
 
-Lemma full_due_false s : full_due s = false -> full_needed s = false /\ snaps s <> [].
+Lemma full_due_false s : full_due s = false -> full_needed s = false /\ snaps s <> [] /\ mnewer s = false.
 Proof.
-  unfold full_due. intros H. apply orb_false_iff in H as [H1 H2].
-  split; [exact H1|]. destruct (snaps s); [discriminate|discriminate].
+  unfold full_due. intros H. apply orb_false_iff in H as [H H3]. apply orb_false_iff in H as [H1 H2].
+  split; [exact H1|]. split; [|exact H3]. destruct (snaps s); [discriminate|discriminate].
 Qed.
+
+Lemma full_due_true_flag s : full_needed s = true -> full_due s = true.
+Proof. intros H. unfold full_due. rewrite H. reflexivity. Qed.
 
 Lemma full_needed_sticky l : forall s, full_needed s = true -> full_needed (fold_left apply_phys l s) = true.
 Proof.
@@ -135,30 +157,127 @@ Proof.
   apply IH. destruct e; cbn; auto.
 Qed.
 
-(* replay of the log suffix at start-up *)
-Lemma phys_fold l : forall s,
+(* replay of the log suffix at start-up (nothing is in flight in a new process) *)
+Lemma phys_fold l : forall s, pending s = None ->
   let s' := fold_left apply_phys l s in
   snaps s' = snaps s /\ log s' = log s /\ staging s' = staging s
   /\ live s' = replay l (live s)
-  /\ (full_needed s' = false -> dbf s' = dbf s).
+  /\ (full_needed s' = false -> dbf s' = dbf s)
+  /\ pending s' = None
+  /\ ((mnewer s = true -> full_needed s = true) -> mnewer s' = true -> full_needed s' = true).
 Proof.
-  induction l as [|e l IH]; intros s; cbn [fold_left replay].
-  - split5; reflexivity.
-  - specialize (IH (apply_phys s e)). cbv zeta in IH.
-    destruct IH as (H1 & H2 & H3 & H4 & H5).
+  induction l as [|e l IH]; intros s Hp; cbn [fold_left replay].
+  - split7; auto.
+  - assert (Hp' : pending (apply_phys s e) = None) by (destruct e; cbn; rewrite ?Hp; reflexivity).
+    specialize (IH (apply_phys s e) Hp'). cbv zeta in IH.
+    destruct IH as (H1 & H2 & H3 & H4 & H5 & H6 & H7).
     rewrite H1, H2, H3, H4.
-    destruct e; cbn [apply_phys set_dbf set_full snaps log staging replay_entry] in *.
-    + split5; try reflexivity.
+    destruct e; cbn [apply_phys set_dbf set_full set_mnewer set_pending snaps log staging replay_entry] in *.
+    + split7; try reflexivity.
       * unfold live; st. rewrite apply_frames_app. reflexivity.
       * exact H5.
-    + split5; try reflexivity.
-      intros Hf. exfalso.
-      (* a load in the suffix leaves FULL_NEEDED set: it is never cleared by later entries *)
-      rewrite full_needed_sticky in Hf; [discriminate | reflexivity].
-    + split5; try reflexivity.
-      intros Hf. exfalso.
-      rewrite full_needed_sticky in Hf; [discriminate | reflexivity].
-    + split5; try reflexivity. exact H5.
+      * exact H6.
+      * exact H7.
+    + split7; try reflexivity.
+      * intros Hf. exfalso.
+        (* a load in the suffix leaves FULL_NEEDED set: it is never cleared by later entries *)
+        rewrite full_needed_sticky in Hf; [discriminate | reflexivity].
+      * exact H6.
+      * intros _ _. apply full_needed_sticky. reflexivity.
+    + split7; try reflexivity.
+      * intros Hf. exfalso.
+        rewrite full_needed_sticky in Hf; [discriminate | reflexivity].
+      * exact H6.
+      * intros _ _. apply full_needed_sticky. reflexivity.
+    + split7; try reflexivity.
+      * exact H5.
+      * exact H6.
+      * exact H7.
+Qed.
+
+(* flag set: the staging condition and the guard condition are vacuous *)
+Lemma inv_flag_true s r :
+  restored s = Some r -> full_needed s = true ->
+  cells_eq (replay (suffix s) r) (live s) -> (N.to_nat (newest_idx s) <= length (log s))%nat ->
+  pend_ok s r -> Inv s.
+Proof.
+  intros Hr Hf H3 H4 HP. exists r. split6; auto.
+  intros Hd. rewrite full_due_true_flag in Hd by exact Hf. discriminate.
+Qed.
+
+(* one entry applied through the log *)
+Lemma entry_preserves s e :
+  Inv s ->
+  let s' := apply_phys (add_log s e) e in
+  Inv s' /\ cells_eq (live s') (replay_entry (live s) e).
+Proof.
+  intros (r & Hr & H2 & H3 & H4 & HG & HP). cbv zeta.
+  assert (Hsuf : forall x, cells_eq (replay (skipn (N.to_nat (newest_idx s)) (log s ++ [e])) x)
+                                    (replay_entry (replay (suffix s) x) e)).
+  { intros x. rewrite skipn_snoc by exact H4. rewrite replay_snoc. apply cells_eq_refl. }
+  assert (Hpend : forall i x, (N.to_nat i <= length (log s))%nat ->
+            cells_eq (replay (skipn (N.to_nat i) (log s)) x) (live s) ->
+            cells_eq (replay (skipn (N.to_nat i) (log s ++ [e])) x) (replay_entry (live s) e)).
+  { intros i x Hi Hx. rewrite skipn_snoc by exact Hi. rewrite replay_snoc. apply replay_entry_congr. exact Hx. }
+  assert (Hlen : forall i, (N.to_nat i <= length (log s))%nat -> (N.to_nat i <= length (log s ++ [e]))%nat).
+  { intros i Hi. rewrite app_length. cbn. lia. }
+  destruct e as [w|c| |].
+  - (* write *)
+    assert (Hl : live (apply_phys (add_log s (EWrite w)) (EWrite w)) = apply_frames (live s) w).
+    { unfold live; st. rewrite apply_frames_app. reflexivity. }
+    assert (Hl2 : forall X, cells_eq X (apply_frames (live s) w) ->
+                            cells_eq X (live (apply_phys (add_log s (EWrite w)) (EWrite w)))).
+    { intros X HX. rewrite Hl. exact HX. }
+    split; [|rewrite Hl; apply cells_eq_refl].
+    exists r. split6.
+    + exact Hr.
+    + exact H2.
+    + apply Hl2. unfold suffix, newest_idx in *; st. eapply cells_eq_trans; [apply Hsuf|].
+      cbn [replay_entry]. apply apply_frames_congr. exact H3.
+    + unfold newest_idx in *; st. apply Hlen. exact H4.
+    + exact HG.
+    + unfold pend_ok in *; st. destruct (pending s) as [[i img sw|i sw]|]; [| |exact I].
+      * destruct HP as (P1 & P2 & P3 & P4). split4; [apply Hlen; exact P1 | | exact P3 | exact P4].
+        apply Hl2. apply (Hpend i img P1 P2).
+      * destruct HP as (P1 & P2 & P3). split; [apply Hlen; exact P1|]. split; [|exact P3].
+        apply Hl2. apply (Hpend i _ P1 P2).
+  - (* load *)
+    split; [|apply cells_eq_refl].
+    apply (inv_flag_true _ r).
+    + exact Hr.
+    + reflexivity.
+    + unfold suffix, newest_idx in *; st. eapply cells_eq_trans; [apply Hsuf|]. apply cells_eq_refl.
+    + unfold newest_idx in *; st. apply Hlen. exact H4.
+    + unfold pend_ok in *; st. destruct (pending s) as [[i img sw|i sw]|]; cbn [mark_swapped]; [| |exact I].
+      * destruct HP as (P1 & P2 & P3 & P4). split4; [apply Hlen; exact P1 | | exact P3 | discriminate].
+        rewrite skipn_snoc by exact P1. rewrite replay_snoc. apply cells_eq_refl.
+      * destruct HP as (P1 & P2 & P3). split; [apply Hlen; exact P1|]. split; [|exact P3].
+        rewrite skipn_snoc by exact P1. rewrite replay_snoc. apply cells_eq_refl.
+  - (* rejected load *)
+    split; [|apply cells_eq_refl].
+    apply (inv_flag_true _ r).
+    + exact Hr.
+    + reflexivity.
+    + unfold suffix, newest_idx in *; st. eapply cells_eq_trans; [apply Hsuf|]. exact H3.
+    + unfold newest_idx in *; st. apply Hlen. exact H4.
+    + unfold pend_ok in *; st. destruct (pending s) as [[i img sw|i sw]|]; cbn [mark_swapped]; [| |exact I].
+      * destruct HP as (P1 & P2 & P3 & P4). split4; [apply Hlen; exact P1 | | exact P3 | discriminate].
+        apply (Hpend i img P1 P2).
+      * destruct HP as (P1 & P2 & P3). split; [apply Hlen; exact P1|]. split; [|exact P3].
+        apply (Hpend i _ P1 P2).
+  - (* no-op entry *)
+    split; [|apply cells_eq_refl].
+    exists r. split6.
+    + exact Hr.
+    + exact H2.
+    + unfold suffix, newest_idx in *; st. eapply cells_eq_trans; [apply Hsuf|]. exact H3.
+    + unfold newest_idx in *; st. apply Hlen. exact H4.
+    + exact HG.
+    + unfold pend_ok in *; st. destruct (pending s) as [[i img sw|i sw]|]; [| |exact I].
+      * destruct HP as (P1 & P2 & P3 & P4). split4; [apply Hlen; exact P1 | | exact P3 | exact P4].
+        apply (Hpend i img P1 P2).
+      * destruct HP as (P1 & P2 & P3). split; [apply Hlen; exact P1|]. split; [|exact P3].
+        apply (Hpend i _ P1 P2).
 Qed.
 
 (* an entry of arbitrary frames written through the log (a write batch, or the statements of a SQL dump) *)
@@ -167,166 +286,263 @@ Lemma write_frames_preserves s w :
   let s' := apply_phys (add_log s (EWrite w)) (EWrite w) in
   Inv s' /\ live s' = apply_frames (live s) w.
 Proof.
-  intros (r & Hr & H2 & H3 & H4). cbn [apply_phys]. split.
-  - exists r. unfold set_dbf, add_log; st. split4.
+  intros I. split; [apply (entry_preserves s (EWrite w) I)|].
+  unfold live; st. rewrite apply_frames_app. reflexivity.
+Qed.
+
+Lemma begin_preserves s : Inv s -> Inv (fst (snap_begin true s)) /\ live (fst (snap_begin true s)) = live s.
+Proof.
+  intros (r & Hr & H2 & H3 & H4 & HG & HP). unfold snap_begin.
+  destruct (pending s) as [p|] eqn:Ep.
+  { cbn [fst]. split; [|reflexivity]. exists r. split6; auto. }
+  destruct (full_due s) eqn:Hd.
+  - (* full *)
+    cbn [fst]. split; [|reflexivity].
+    assert (Hflag : (full_needed s || match snaps s with [] => true | _ => false end)%bool = true).
+    { unfold full_due in Hd. destruct (mnewer s) eqn:Em; [rewrite HG by reflexivity; reflexivity|].
+      rewrite orb_false_r in Hd. exact Hd. }
+    exists r. split6.
     + exact Hr.
-    + exact H2.
-    + unfold suffix, newest_idx in * ; st. rewrite skipn_snoc by exact H4.
-      rewrite replay_snoc. cbn [replay_entry]. unfold live; st.
-      rewrite apply_frames_app. apply apply_frames_congr. exact H3.
-    + unfold newest_idx in * ; st. rewrite app_length. cbn. lia.
-  - unfold live, set_dbf, add_log ; st. rewrite apply_frames_app. reflexivity.
+    + intros Hf. unfold full_due in Hf. cbn in Hf. rewrite Hflag in Hf. discriminate.
+    + exact H3.
+    + exact H4.
+    + st. discriminate.
+    + unfold pend_ok; st. split4.
+      * rewrite applied_nat. st. lia.
+      * rewrite applied_nat. st. rewrite skipn_len. cbn [replay fold_left]. apply cells_eq_refl.
+      * reflexivity.
+      * intros _. split; [apply cells_eq_refl | reflexivity].
+  - (* incremental *)
+    destruct (full_due_false s Hd) as (Hfn & Hne & Hm).
+    assert (H2' : cells_eq (apply_segs r (staging s)) (dbf s)) by (apply H2; reflexivity).
+    destruct (wal s) as [|f w0] eqn:Ew.
+    + cbn [fst]. split; [|unfold live; st; rewrite Ew; reflexivity].
+      exists r. split6.
+      * exact Hr.
+      * intros _. exact H2'.
+      * exact H3.
+      * exact H4.
+      * st. discriminate.
+      * unfold pend_ok in *; st. rewrite Ep. exact I.
+    + rewrite <- Ew in *. cbn [fst]. split; [|reflexivity].
+      assert (Hst : cells_eq (apply_segs r (staging s ++ [wal s])) (apply_frames (dbf s) (wal s))).
+      { rewrite apply_segs_app. cbn [apply_segs fold_left]. apply apply_frames_congr. exact H2'. }
+      exists r. split6.
+      * exact Hr.
+      * intros _. exact Hst.
+      * exact H3.
+      * exact H4.
+      * st. discriminate.
+      * unfold pend_ok; st. split; [rewrite applied_nat; st; lia|]. split; [|exact Hne].
+        rewrite applied_nat. st. rewrite skipn_len. cbn [replay fold_left]. exact Hst.
+Qed.
+
+Lemma mnewer_false_preserves s : pending s = None -> Inv s -> Inv (set_mnewer s false).
+Proof.
+  intros Ep (r & Hr & H2 & H3 & H4 & HG & HP). exists r. split6.
+  - exact Hr.
+  - intros Hf. apply H2. unfold full_due in *. cbn in Hf.
+    destruct (mnewer s) eqn:Em; [|exact Hf].
+    rewrite HG in Hf by reflexivity. discriminate.
+  - exact H3.
+  - exact H4.
+  - cbn. discriminate.
+  - unfold pend_ok in *; st. rewrite Ep. exact I.
+Qed.
+
+Lemma blocked_preserves s : Inv s -> Inv (fst (snap_blocked s)) /\ live (fst (snap_blocked s)) = live s.
+Proof.
+  intros I. unfold snap_blocked. destruct (pending s) eqn:Ep; [split; [exact I | reflexivity]|].
+  destruct (full_due s); [|destruct (wal s)]; cbn [fst]; (split; [apply mnewer_false_preserves; assumption | reflexivity]).
+Qed.
+
+Lemma drop_pending s : Inv s -> Inv (set_pending s None).
+Proof. intros (r & Hr & H2 & H3 & H4 & HG & HP). exists r. split6; auto. exact I. Qed.
+
+Lemma persist_preserves s o : Inv s -> Inv (fst (snap_persist true s o)) /\ live (fst (snap_persist true s o)) = live s.
+Proof.
+  intros I0. pose proof I0 as (r & Hr & H2 & H3 & H4 & HG & HP). unfold snap_persist.
+  destruct (pending s) as [p|] eqn:Ep; [|split; [exact I0 | reflexivity]].
+  pose proof (drop_pending s I0) as I1.
+  assert (Hfin : forall s1 (res : N), live s1 = live s ->
+            (was_swapped p = false -> Inv s1) ->
+            (exists r1, restored s1 = Some r1 /\ cells_eq (replay (suffix s1) r1) (live s1)
+                        /\ (N.to_nat (newest_idx s1) <= length (log s1))%nat /\ pending s1 = None) ->
+            Inv (fst (if (true && was_swapped p)%bool then set_full s1 true else s1, res))
+            /\ live (fst (if (true && was_swapped p)%bool then set_full s1 true else s1, res)) = live s).
+  { intros s1 res Hl Hu (r1 & C1 & C2 & C3 & C4). cbn [andb]. destruct (was_swapped p); cbn [fst].
+    - split; [|exact Hl]. apply (inv_flag_true _ r1); auto. unfold pend_ok; st. rewrite C4. exact I.
+    - split; [apply Hu; reflexivity | exact Hl]. }
+  assert (Hcore0 : exists r1, restored (set_pending s None) = Some r1
+             /\ cells_eq (replay (suffix (set_pending s None)) r1) (live (set_pending s None))
+             /\ (N.to_nat (newest_idx (set_pending s None)) <= length (log (set_pending s None)))%nat
+             /\ pending (set_pending s None) = None).
+  { exists r. auto. }
+  unfold pend_ok in HP. rewrite Ep in HP.
+  destruct p as [i img sw|i sw]; cbn [was_swapped] in *.
+  - (* full snapshot in flight *)
+    destruct HP as (P1 & P2 & P3 & P4).
+    destruct o.
+    + (* ok: visible, FULL_NEEDED cleared by the sink *)
+      cbv beta iota zeta; apply Hfin; [reflexivity | |].
+      * intros Hsw. destruct (P4 Hsw) as [Pd Pm].
+        exists (apply_segs img []). split6.
+        -- reflexivity.
+        -- intros _. st. rewrite P3. cbn [apply_segs fold_left]. exact Pd.
+        -- unfold suffix, newest_idx; st. exact P2.
+        -- unfold newest_idx; st. exact P1.
+        -- st. rewrite Pm. discriminate.
+        -- exact I.
+      * exists (apply_segs img []). split4; [reflexivity | | | reflexivity].
+        -- unfold suffix, newest_idx; st. exact P2.
+        -- unfold newest_idx; st. exact P1.
+    + cbv beta iota zeta; apply Hfin; [reflexivity | intros _; exact I1 | exact Hcore0].
+    + (* failed before: the staging directory is gone (it was emptied when the snapshot began) *)
+      cbv beta iota zeta. change (staging (set_pending s None)) with (staging s). rewrite P3. apply Hfin; [reflexivity | | ].
+      * intros _. apply (inv_flag_true _ r); auto. exact I.
+      * exists r. auto.
+    + cbv beta iota zeta; apply Hfin; [reflexivity | | ].
+      * intros _. apply (inv_flag_true _ r); auto. exact I.
+      * exists r. auto.
+  - (* incremental snapshot in flight *)
+    destruct HP as (P1 & P2 & P3).
+    destruct o.
+    + st. destruct (full_needed s) eqn:Ef.
+      * cbv beta iota zeta; apply Hfin; [reflexivity | intros _; exact I1 | exact Hcore0].
+      * (* the staged WALs become the newest snapshot *)
+        destruct (restored_nonempty s P3 r Hr) as (db & ws & Hres & ->).
+        assert (Hm : mnewer s = false) by (destruct (mnewer s); [discriminate (HG eq_refl) | reflexivity]).
+        assert (Hd : full_due s = false).
+        { unfold full_due. rewrite Ef, Hm. destruct (snaps s); [congruence | reflexivity]. }
+        assert (Hres' : restored (set_full (set_staging (set_snaps (set_pending s None) (SInc i (staging s) :: snaps s)) []) false)
+                        = Some (apply_segs db (ws ++ staging s))).
+        { unfold restored; st. cbn [resolve]. rewrite Hres. reflexivity. }
+        cbv beta iota zeta; apply Hfin; [reflexivity | |].
+        -- intros _. exists (apply_segs db (ws ++ staging s)). split6.
+           ++ exact Hres'.
+           ++ intros _. st. cbn [apply_segs fold_left]. rewrite apply_segs_app. apply H2. exact Hd.
+           ++ unfold suffix, newest_idx; st. rewrite apply_segs_app. exact P2.
+           ++ unfold newest_idx; st. exact P1.
+           ++ st. rewrite Hm. discriminate.
+           ++ exact I.
+        -- exists (apply_segs db (ws ++ staging s)). split4; [exact Hres' | | | reflexivity].
+           ++ unfold suffix, newest_idx; st. rewrite apply_segs_app. exact P2.
+           ++ unfold newest_idx; st. exact P1.
+    + cbv beta iota zeta; apply Hfin; [reflexivity | intros _; exact I1 | exact Hcore0].
+    + cbv beta iota zeta; apply Hfin; [reflexivity | intros _; exact I1 | exact Hcore0].
+    + cbv beta iota zeta; apply Hfin; [reflexivity | | ].
+      * intros _. apply (inv_flag_true _ r); auto. exact I.
+      * exists r. auto.
 Qed.
 
 Lemma step_preserves s o :
   Inv s ->
   let s' := fst (step s o) in
-  Inv s' /\ cells_eq (live s') (spec_step (live s) o).
+  Inv s' /\ cells_eq (live s') (spec_step (live s) o (snd (step s o))).
 Proof.
-  intros (r & Hr & H2 & H3 & H4).
-  destruct o as [ks v|out|c| |c|c segs| |]; unfold step, step_gen.
+  intros I0. pose proof I0 as (r & Hr & H2 & H3 & H4 & HG & HP).
+  destruct o as [ks v| |out| |c| |c|c segs| |]; unfold step, step_gen; cbn [spec_step].
   - (* write *)
-    cbn [fst apply_phys]. set (w := map (fun k => (k, v)) ks). split.
-    + exists r. unfold set_dbf, add_log ; st. split4.
-      * exact Hr.
-      * exact H2.
-      * unfold suffix, newest_idx in * ; st. rewrite skipn_snoc by exact H4.
-        rewrite replay_snoc. cbn [replay_entry]. unfold live; st.
-        rewrite apply_frames_app. apply apply_frames_congr. exact H3.
-      * unfold newest_idx in * ; st. rewrite app_length. cbn. lia.
-    + unfold live, set_dbf, add_log ; st. rewrite apply_frames_app. apply cells_eq_refl.
-  - (* snapshot *)
-    cbn [spec_step]. unfold snapshot_step.
-    destruct (full_due s) eqn:Hd.
-    + (* full path *)
-      destruct out; cbn [fst].
-      * pose proof (snap_full_ok s Hd) as [Hi Hl]. unfold snapshot_step in Hi, Hl. rewrite Hd in Hi, Hl.
-        cbn [fst] in Hi, Hl. split; [exact Hi | rewrite Hl; apply cells_eq_refl].
-      * split; [|apply cells_eq_refl].
-        exists r. unfold set_staging, set_dbf ; st. split4; try assumption.
-        intros Hf. unfold full_due in *; cbn in *. congruence.
-      * split; [|apply cells_eq_refl].
-        exists r. unfold set_full, set_staging, set_dbf ; st. split4; try assumption.
-        intros Hf. unfold full_due in Hf; cbn in Hf. discriminate.
-      * split; [|apply cells_eq_refl].
-        exists r. unfold set_full, set_staging, set_dbf ; st. split4; try assumption.
-        intros Hf. unfold full_due in Hf; cbn in Hf. discriminate.
-      * split; [|apply cells_eq_refl]. exists r. split4; try assumption. intros Hf. congruence.
-    + (* incremental path *)
-      destruct (full_due_false s Hd) as [Hfn Hne].
-      assert (H2' : cells_eq (apply_segs r (staging s)) (dbf s)) by (apply H2; reflexivity).
-      destruct (wal s) as [|f w0] eqn:Ew.
-      * cbn [fst]. split; [|apply cells_eq_refl]. exists r. split4; try assumption. intros _; exact H2'.
-      * rewrite <- Ew in *.
-        assert (Hst : cells_eq (apply_segs r (staging s ++ [wal s])) (apply_frames (dbf s) (wal s))).
-        { rewrite apply_segs_app. cbn [apply_segs fold_left]. apply apply_frames_congr. apply H2. reflexivity. }
-        destruct out; cbn [fst].
-        -- (* ok: the staged WALs become the newest snapshot *)
-           destruct (restored_nonempty s Hne r Hr) as (db & ws & Hres & ->).
-           split; [|apply cells_eq_refl].
-           exists (apply_segs db (ws ++ (staging s ++ [wal s]))).
-           unfold set_full, set_staging, set_snaps, set_dbf, applied ; st. split4.
-           ++ unfold restored ; st. cbn [resolve]. rewrite Hres. reflexivity.
-           ++ intros _. rewrite apply_segs_app. exact Hst.
-           ++ unfold suffix, newest_idx ; st. rewrite Nnat.Nat2N.id, skipn_len. cbn.
-              unfold live ; st. rewrite apply_segs_app. exact Hst.
-           ++ unfold newest_idx ; st. rewrite Nnat.Nat2N.id. lia.
-        -- split; [|apply cells_eq_refl].
-           exists r. unfold set_staging, set_dbf ; st. split4; try assumption.
-           intros _. exact Hst.
-        -- split; [|apply cells_eq_refl].
-           exists r. unfold set_staging, set_dbf ; st. split4; try assumption.
-           intros _. exact Hst.
-        -- split; [|apply cells_eq_refl].
-           exists r. unfold set_full, set_staging, set_dbf ; st. split4; try assumption.
-           intros Hf. unfold full_due in Hf; cbn in Hf. discriminate.
-        -- split; [|apply cells_eq_refl]. exists r. split4; try assumption. intros _; exact H2'.
+    cbn [fst]. apply (entry_preserves s (EWrite (map (fun k => (k, v)) ks)) I0).
+  - (* snapshot begins *)
+    destruct (begin_preserves s I0) as [Hi Hl]. split; [exact Hi | rewrite Hl; apply cells_eq_refl].
+  - (* snapshot persisted / released *)
+    destruct (persist_preserves s out I0) as [Hi Hl]. split; [exact Hi | rewrite Hl; apply cells_eq_refl].
+  - (* snapshot attempt blocked *)
+    destruct (blocked_preserves s I0) as [Hi Hl]. split; [exact Hi | rewrite Hl; apply cells_eq_refl].
   - (* load *)
-    cbn [fst apply_phys spec_step]. split; [|apply cells_eq_refl].
-    exists r. unfold set_full, set_dbf, add_log ; st. split4.
-    + exact Hr.
-    + intros Hf. unfold full_due in Hf; cbn in Hf. discriminate.
-    + unfold suffix, newest_idx in * ; st. rewrite skipn_snoc by exact H4.
-      rewrite replay_snoc. cbn [replay_entry]. apply cells_eq_refl.
-    + unfold newest_idx in * ; st. rewrite app_length. cbn. lia.
+    cbn [fst]. apply (entry_preserves s (ELoad (cells_of_vec c)) I0).
   - (* rejected load *)
-    cbn [fst apply_phys spec_step]. split; [|apply cells_eq_refl].
-    exists r. unfold set_full, add_log ; st. split4.
-    + exact Hr.
-    + intros Hf. unfold full_due in Hf; cbn in Hf. discriminate.
-    + unfold suffix, newest_idx in * ; st. rewrite skipn_snoc by exact H4.
-      rewrite replay_snoc. cbn [replay_entry]. exact H3.
-    + unfold newest_idx in * ; st. rewrite app_length. cbn. lia.
+    cbn [fst]. apply (entry_preserves s ELoadBad I0).
   - (* boot *)
-    cbn [spec_step].
-    set (s1 := set_full (set_dbf (add_log s ENoop) (cells_of_vec c) []) true).
-    assert (Hd1 : full_due s1 = true) by reflexivity.
-    destruct (snap_full_ok s1 Hd1) as [Hi Hl]. split; [exact Hi|].
-    rewrite Hl. apply cells_eq_refl.
+    destruct (pending s) eqn:Ep; cbn [fst snd].
+    { split; [exact I0 | apply cells_eq_refl]. }
+    unfold snap_begin, snap_persist; st. rewrite Ep. cbn. split; [|apply cells_eq_refl].
+    exact (inv_new_full s (cells_of_vec c) [] (log s ++ [ENoop]) false).
   - (* install *)
-    cbn [fst spec_step]. split; [|apply cells_eq_refl].
-    unfold set_staging, set_dbf, set_full, set_snaps, applied; st.
-    exact (inv_new_full s _ _ _).
+    destruct (pending s) eqn:Ep; cbn [fst snd].
+    { split; [exact I0 | apply cells_eq_refl]. }
+    split; [|apply cells_eq_refl].
+    unfold set_staging, set_mnewer, set_dbf, set_full, set_snaps, applied; st. rewrite Ep.
+    exact (inv_new_full s (cells_of_vec c) _ (log s) false).
   - (* reap *)
-    cbn [spec_step].
     destruct (snaps s) as [|x [|y l]] eqn:Es; cbn [fst].
-    + split; [|apply cells_eq_refl]. exists r. split4; assumption.
-    + split; [|apply cells_eq_refl]. exists r. split4; assumption.
+    + split; [exact I0 | apply cells_eq_refl].
+    + split; [exact I0 | apply cells_eq_refl].
     + assert (Hne : snaps s <> []) by (rewrite Es; discriminate).
       destruct (restored_nonempty s Hne r Hr) as (db & ws & Hres & ->).
       rewrite Es in Hres. rewrite Hres. cbn [fst]. split; [|apply cells_eq_refl].
-      exists (apply_segs db ws). unfold set_snaps ; st. split4.
+      exists (apply_segs db ws). unfold set_snaps; st. split6.
       * reflexivity.
-      * intros Hf. apply H2. unfold full_due in *. rewrite Es. exact Hf.
+      * intros Hf. apply H2. unfold full_due in *. cbn in Hf. rewrite Es. exact Hf.
       * exact H3.
       * exact H4.
+      * exact HG.
+      * unfold pend_ok in *; st. destruct (pending s) as [[i img sw|i sw]|]; [exact HP | | exact I].
+        destruct HP as (P1 & P2 & P3). split; [exact P1|]. split; [exact P2 | discriminate].
   - (* restart *)
-    cbn [spec_step]. rewrite Hr. cbn [fst].
-    set (s0 := set_staging (set_dbf s r []) []).
-    pose proof (phys_fold (suffix s) s0) as P. cbv zeta in P.
-    destruct P as (P1 & P2 & P3 & P4 & P5).
+    rewrite Hr. cbn [fst snd].
+    set (s0 := set_pending (set_mnewer (set_staging (set_dbf s r []) []) false) None).
+    pose proof (phys_fold (suffix s) s0 eq_refl) as P. cbv zeta in P.
+    destruct P as (P1 & P2 & P3 & P4 & P5 & P6 & P7).
     set (s' := fold_left apply_phys (suffix s) s0) in *.
     assert (Hsuf : suffix s' = suffix s).
     { unfold suffix, newest_idx. rewrite P1, P2. reflexivity. }
     assert (Hlive : live s' = replay (suffix s) r).
-    { rewrite P4. unfold live, s0 ; st. reflexivity. }
+    { rewrite P4. unfold live, s0; cbn. reflexivity. }
     split.
-    + exists r. split4.
+    + exists r. split6.
       * unfold restored. rewrite P1. exact Hr.
-      * intros Hf. rewrite P3. cbn [staging set_staging apply_segs fold_left].
+      * intros Hf. rewrite P3. cbn [staging s0 set_pending set_mnewer set_staging apply_segs fold_left].
         rewrite P5; [apply cells_eq_refl|].
-        unfold full_due in Hf. apply orb_false_iff in Hf. tauto.
+        unfold full_due in Hf. apply orb_false_iff in Hf as [Hf _]. apply orb_false_iff in Hf. tauto.
       * rewrite Hsuf, Hlive. apply cells_eq_refl.
       * unfold newest_idx. rewrite P1, P2. exact H4.
+      * apply P7. cbn. discriminate.
+      * unfold pend_ok. rewrite P6. exact I.
     + rewrite Hlive. exact H3.
 Qed.
 
-(* a snapshot attempt whose checkpoint is busy changes nothing; in particular the staging directory keeps
-   every segment it had (a failed attempt leaves nothing NEW behind and removes nothing OLD) *)
-Theorem blocked_changes_nothing s : fst (step s (OSnap PBlocked)) = s.
-Proof.
-  unfold step, step_gen, snapshot_step. destruct (full_due s); [reflexivity|].
-  destruct (wal s); reflexivity.
-Qed.
-
+(* a snapshot attempt whose checkpoint is busy changes nothing but the recorded modification time; in
+   particular the staging directory keeps every segment it had (a failed attempt leaves nothing NEW behind and
+   removes nothing OLD) *)
 Theorem blocked_keeps_staging s :
-  fst (step s (OSnap PBlocked)) = s /\ staging (fst (step s (OSnap PBlocked))) = staging s.
-Proof. rewrite blocked_changes_nothing. split; reflexivity. Qed.
+  let s' := fst (step s OSnapBlocked) in
+  staging s' = staging s /\ dbf s' = dbf s /\ wal s' = wal s /\ snaps s' = snaps s
+  /\ full_needed s' = full_needed s /\ log s' = log s /\ pending s' = pending s.
+Proof.
+  unfold step, step_gen, snap_blocked. destruct (pending s) eqn:Ep.
+  - cbn. rewrite Ep. repeat split.
+  - destruct (full_due s); [|destruct (wal s) eqn:Ew]; cbn; rewrite ?Ew, ?Ep; repeat split.
+Qed.
 
 Lemma inv_init : Inv init.
 Proof.
-  exists []. split4; [reflexivity | intros _; apply cells_eq_refl | apply cells_eq_refl | cbn; lia].
+  exists []. split6; [reflexivity | intros _; apply cells_eq_refl | apply cells_eq_refl | cbn; lia | cbn; discriminate | exact I].
+Qed.
+
+Lemma both_fst ops : forall s d, fst (fold_left both_step ops (s, d)) = fold_left (fun s o => fst (step s o)) ops s.
+Proof.
+  induction ops as [|o ops IH]; intros s d; cbn [fold_left]; [reflexivity|].
+  replace (both_step (s, d) o) with (fst (step s o), spec_step d o (snd (step s o))).
+  - apply IH.
+  - unfold both_step. destruct (step s o); reflexivity.
 Qed.
 
 Lemma run_inv ops : forall s d, Inv s -> cells_eq (live s) d ->
-  Inv (fold_left (fun s o => fst (step s o)) ops s)
-  /\ cells_eq (live (fold_left (fun s o => fst (step s o)) ops s)) (fold_left spec_step ops d).
+  Inv (fst (fold_left both_step ops (s, d)))
+  /\ cells_eq (live (fst (fold_left both_step ops (s, d)))) (snd (fold_left both_step ops (s, d))).
 Proof.
-  induction ops as [|o ops IH]; intros s d Hi Hl; cbn [fold_left]; [tauto|].
+  induction ops as [|o ops IH]; intros s d Hi Hl; cbn [fold_left]; [cbn; tauto|].
   destruct (step_preserves s o Hi) as [Hi' Hl'].
+  replace (both_step (s, d) o) with (fst (step s o), spec_step d o (snd (step s o)))
+    by (unfold both_step; destruct (step s o); reflexivity).
   apply IH; [exact Hi'|].
   eapply cells_eq_trans; [exact Hl'|]. apply spec_step_congr. exact Hl.
 Qed.
+
+Lemma run_both ops : run ops = fst (both ops).
+Proof. unfold run, run_gen, both. rewrite both_fst. reflexivity. Qed.
 
 Lemma inv_chain_ok s : Inv s -> chain_ok s.
 Proof.
@@ -337,7 +553,7 @@ Qed.
 
 Theorem chain_invariant ops : chain_ok (run ops).
 Proof.
-  apply inv_chain_ok. apply (run_inv ops init []); [apply inv_init | apply cells_eq_refl].
+  apply inv_chain_ok. rewrite run_both. apply (run_inv ops init [] inv_init (cells_eq_refl _)).
 Qed.
 
 Theorem rebuild ops :
@@ -346,8 +562,10 @@ Theorem rebuild ops :
     /\ cells_eq (live (run ops)) (spec_state ops).
 Proof.
   destruct (run_inv ops init [] inv_init (cells_eq_refl _)) as [(r & Hr & _ & H3 & _) Hl].
-  exists (replay (suffix (run ops)) r). unfold rebuilt. unfold run, run_gen in *.
-  fold step in *. rewrite Hr. split; [reflexivity|]. split.
+  change (fold_left both_step ops (init, [])) with (both ops) in *.
+  rewrite run_both. unfold spec_state.
+  exists (replay (suffix (fst (both ops))) r). unfold rebuilt. rewrite Hr.
+  split; [reflexivity|]. split.
   - eapply cells_eq_trans; [exact H3 | exact Hl].
   - exact Hl.
 Qed.
@@ -375,21 +593,38 @@ Proof.
     cbn [firstn fold_left]. rewrite E. reflexivity.
 Qed.
 
-(* ---- the unrepaired code (staging directory never emptied) violates the property ---- *)
+(* ---- the unrepaired code violates the property ---- *)
 Definition all24 (v : N) : list N := map (fun _ => v) universe.
+Definition snap (o : outcome) : list op := [OSnapBegin; OSnapPersist o].
+
+(* repair 1 missing (staging directory never emptied): a staged WAL survives a load and a full snapshot *)
 Definition witness : list op :=
-  [OWrite [1; 2] 1; OSnap POk; OWrite [1] 2; OSnap PNotInvoked; OLoad (all24 3); OSnap POk; OWrite [2] 4; OSnap POk].
+  [OWrite [1; 2] 1] ++ snap POk ++ [OWrite [1] 2] ++ snap PNotInvoked ++ [OLoad (all24 3)] ++ snap POk ++ [OWrite [2] 4] ++ snap POk.
 
 Theorem unfixed_refuted :
-  exists ops d, rebuilt (run_gen false ops) = Some d /\ get d 1 <> get (spec_state ops) 1.
+  exists ops d, rebuilt (run_gen false true ops) = Some d /\ get d 1 <> get (spec_state ops) 1.
 Proof.
   exists witness. eexists. split; [vm_compute; reflexivity|]. vm_compute. discriminate.
 Qed.
 
-(* non-vacuity: the same history on the repaired model, with a stale staged WAL, a change of base and an
-   incremental snapshot after it *)
+(* repair 2 missing (FULL_NEEDED not asked for again): a load is applied while a full snapshot of the old
+   database is in flight; the close of that snapshot erases the load's FULL_NEEDED; one skipped attempt later
+   the mtime guard is quiet too and an incremental snapshot is chained onto the full snapshot of the old database *)
+Definition witness_inflight : list op :=
+  [OWrite [1; 2] 1; OSnapBegin; OLoad (all24 3); OSnapPersist POk; OWrite [2] 4] ++ snap PNotInvoked ++ [OWrite [3] 5] ++ snap POk.
+
+Theorem inflight_unfixed_refuted :
+  exists ops d, rebuilt (run_gen true false ops) = Some d /\ get d 1 <> get (spec_state ops) 1.
+Proof.
+  exists witness_inflight. eexists. split; [vm_compute; reflexivity|]. vm_compute. discriminate.
+Qed.
+
+(* non-vacuity: the same histories on the repaired model *)
 Example ex_fixed :
   dump_opt (rebuilt (run witness)) = dump (spec_state witness)
   /\ map (fun x => fst x) (map cat_of (snaps (run witness))) = [(false, 4); (true, 3); (true, 1)]
-  /\ get (spec_state witness) 1 = 3 /\ get (spec_state witness) 2 = 4.
-Proof. vm_compute. auto. Qed.
+  /\ get (spec_state witness) 1 = 3 /\ get (spec_state witness) 2 = 4
+  /\ dump_opt (rebuilt (run witness_inflight)) = dump (spec_state witness_inflight)
+  /\ map (fun x => fst x) (map cat_of (snaps (run witness_inflight))) = [(true, 4); (true, 1)]
+  /\ get (spec_state witness_inflight) 1 = 3.
+Proof. vm_compute. auto 10. Qed.
